@@ -33,6 +33,8 @@ def D():
         _decls['idok'] = z3.Function('seg.is_seg_id_valid', S, z3.BoolSort())
         _decls['repr'] = z3.Function('seg.repr', S, z3.StringSort())
         _decls['fmt'] = z3.Function('seg.format', S, z3.StringSort(), z3.StringSort(), z3.StringSort(), z3.StringSort())
+        # id of the segment Segment.__init__ builds from (text, seg_term, ele_term): a function of these three alone (segment.py)
+        _decls['parse_id'] = z3.Function('seg.parse_id', z3.StringSort(), z3.StringSort(), z3.StringSort(), OS)
     return _decls
 
 
@@ -79,6 +81,37 @@ def unwrap(st, recv):
     if isinstance(recv, Ref):
         return st.heap[recv.addr].fields['v'], recv
     return recv, None
+
+
+def ctor_facts(I, st, res, env):
+    """facts about `Segment(seg_str, seg_term, ele_term, ...)` built through the abstract MUTABLE constructor (997 visitor):
+    F0 the id is a function of (seg_str, seg_term, ele_term) alone;
+    F1 a constant text without the element separator that does not end in the segment terminator is its own id
+       (segment.py: `elems = seg_str.split(ele_term); seg_id = elems[0]`);
+    F2 re-reading `s.format(a, b, c)` with the same a, b gives a segment with the id of s when that id is a non-empty text
+       free of a and b - the id clause of the C01 round trip (Segment.format / Segment.__init__ contracts, bounded_segment_text).
+    All three are ASSUMED here (listed in the evidence), not proved at this call site."""
+    d = D()
+    v, _ = unwrap(st, res)
+    names = list(env)
+    seg_str, seg_term, ele_term = env.get('seg_str'), env.get('seg_term'), env.get('ele_term')
+    if not (isinstance(seg_str, SStr) and isinstance(seg_term, SStr) and isinstance(ele_term, SStr)):
+        return
+    I.trusted.add('abstract mutable Segment constructor: id = parse_id(text, seg_term, ele_term); a literal without separators is its own id; '
+                  'parse_id(s.format(a, b, c), a, b) == s.get_seg_id() for ids free of a and b (id clause of the C01 round trip)')
+    some = d['OS'].constructor(1)
+    st.assume(d['sid'](v.e) == d['parse_id'](seg_str.z(), seg_term.z(), ele_term.z()))
+    c, a, b = seg_str.conc(), seg_term.conc(), ele_term.conc()
+    if c is not None and a is not None and b is not None and c != '' and len(b) == 1 and b not in c and not c.endswith(a):
+        st.assume(d['parse_id'](seg_str.z(), seg_term.z(), ele_term.z()) == some(z3.StringVal(c)))
+    tag = getattr(seg_str, 'tag', None)
+    if tag and tag.get('suffix') is None and len(tag['terms']) == 3:
+        src = tag['seg'].e
+        ta, tb = tag['terms'][0].z(), tag['terms'][1].z()
+        sv = d['OS'].accessor(1, 0)(d['sid'](src))
+        ok = z3.And(z3.Not(d['OS'].recognizer(0)(d['sid'](src))), z3.Length(sv) > 0, z3.Not(z3.Contains(sv, ta)), z3.Not(z3.Contains(sv, tb)),
+                    ta == seg_term.z(), tb == ele_term.z())
+        st.assume(z3.Implies(ok, d['parse_id'](seg_str.z(), seg_term.z(), ele_term.z()) == d['sid'](src)))
 
 
 def seg_call(I, node, recv, meth, args, kwargs, st):
@@ -194,7 +227,10 @@ def _seg_access(I, node, v, ref, meth, i, j, args, st):
         some = d['OS'].constructor(1)(val.z())
         kk = z3.Int('seg!k')
         st1.assume(d['elem'](new, k) == some)
-        st1.assume(z3.ForAll([kk], z3.Implies(kk != k, d['elem'](new, kk) == d['elem'](s, kk)), patterns=[d['elem'](new, kk)]))
+        if not ((getattr(I.cur_contract, 'options', None) or {}).get('seg_set_no_frame')):
+            # frame of set(): every other position unchanged.  A contract that never reads an element after a set() may switch the
+            # quantified clause off (strictly less is assumed) so that the solvers can produce counter-models
+            st1.assume(z3.ForAll([kk], z3.Implies(kk != k, d['elem'](new, kk) == d['elem'](s, kk)), patterns=[d['elem'](new, kk)]))
         st1.assume(d['sid'](new) == d['sid'](s))
         st1.assume(d['len'](new) == z3.If(n >= i, n, i))
         o = st1.mut(ref.addr)
